@@ -440,7 +440,7 @@ def output_sweep(run, rng, n):
     """(args, texts, ok, got, expected): multi-file run = concatenation of the single-document runs, for every output format"""
     res = []
     for fmt, kind in OUT_FORMATS.items():
-        for _ in range(n):
+        for _ in range(n * (3 if fmt in ("xml", "props") else 1)):      # the encoders that keep state / print leading content
             files, singles = [], []
             for _f in range(rng.randrange(1, 4)):
                 docs = []
